@@ -56,6 +56,12 @@ Qed.
 Lemma elems_lflat : forall rid i g s, stream_elems (lflat rid i g s) = flat_map g (stream_elems s).
 Proof. intros; apply elems_lflat_go. Qed.
 
+Lemma elems_lpart : forall rid i h s, stream_elems (lpart rid i h s) = h (stream_elems s).
+Proof.
+  intros; unfold stream_elems, lpart. destruct (h (map snd (cells s))) as [|y ys]; simpl; auto.
+  rewrite map_map; simpl. rewrite map_id; reflexivity.
+Qed.
+
 (* ---------------------------------------------------------------- islice *)
 Lemma ltake_spec : forall n cs tr,
   fst (fst (ltake n cs tr)) = firstn n (map snd cs) /\
